@@ -94,7 +94,7 @@ pub fn s2(tier: Tier) -> Vec<Act> {
     let mut a = vec![];
     let oper_vals: Vec<u16> = vec![0, 1, 0x8000, 0x8001];
     let ques_vals: Vec<u16> = tier.pick(vec![0, 1], vec![0, 1 << 5]);
-    a.extend(reg_actions(Which::Oper, &oper_vals, false, false));
+    a.extend(reg_actions(Which::Oper, &oper_vals, true, false));
     a.extend(reg_actions(Which::Ques, &ques_vals, false, false));
     a.push(msg1("*CLS", U::Cls));
     a.push(msg1("STAT:PRES", U::Preset));
